@@ -205,6 +205,17 @@ func InjectBudget(n int) { mu.Lock(); injBudget = n; mu.Unlock() }
 // Yield marks an explicit yield point.
 func Yield(label string) { yieldPoint("harness:" + label) }
 
+// RealTimers: from here on the harness runs the repository's own utils/timer.go (symbolic
+// runs: on the runtime time.Timer model; native runs always do).
+func RealTimers() { goroutineBase = runtime.NumGoroutine() }
+
+var goroutineBase int
+
+// Goroutines is the number of goroutines alive besides the harness's own (symbolic runs:
+// interpreted goroutines that have not finished; native runs: growth of
+// runtime.NumGoroutine since RealTimers was called).
+func Goroutines() int { return runtime.NumGoroutine() - goroutineBase }
+
 // Blocked / HeldLocks are executor-only observations (0 natively).
 func Blocked() int   { return 0 }
 func HeldLocks() int { return 0 }
@@ -257,6 +268,12 @@ func JSONString(b []byte, key string) string {
 		return "\x00<no such json string>"
 	}
 	return s
+}
+
+// JSONIsList reports whether the member exists and is a JSON list (not null).
+func JSONIsList(b []byte, key string) bool {
+	v, ok := jsonField(b, key)
+	return ok && len(v) > 0 && v[0] == '['
 }
 
 func JSONStrings(b []byte, key string) []string {
